@@ -65,6 +65,8 @@ def pipeline(ctx, part, replay=None):
 
 _COMMON = [
     "stimuli: TLC-enumerated boundary cases (every state of MC_Frame; every op x width 0..4 x rotations of six boundary values; "
+    "the channel iterators after every prefix of next()/next_back() calls x every positional call (nth, skip, step_by, last, count, "
+    "collect, rev, nth_back) x every argument up to one past the end; "
     "every (N, L<=2N+1); every pair of lengths 0..4) plus seeded random cases on every width 1..32 and the bare sample on all 14 formats",
     "offsets / gains are chosen so that the mathematical result stays representable; events outside that domain carry no claim "
     "(Trace_Frame counts them and fails the run as vacuous when they exceed half of the arithmetic events)",
